@@ -25,5 +25,5 @@ R_SenderOps == [s1 |-> <<"send">>]
 R_FlusherOps == [f1 |-> "flushInf"]
 \* retry budget is per batch: two items, enough faults to exhaust one batch and fail the next
 R2_SenderOps == [s1 |-> <<"send", "send">>]
-R2_FlusherOps == [f1 |-> "flush0"]
+R2_FlusherOps == <<>>
 =============================================================================
